@@ -191,8 +191,8 @@ func runSolver(ctx context.Context, sd solverDef, script string, ms int, cfg *So
 
 // discharge decides one obligation.
 func discharge(u *Unit, o *Oblig, script string, sliced string, cfg *SolverCfg) {
-	if o.Trivial {
-		return
+	if o.Trivial || o.Result == "violated" {
+		return // decided during generation (simplifier / kind pass)
 	}
 	t0 := time.Now()
 	defer func() { o.TimeMs = time.Since(t0).Milliseconds() }()
@@ -338,7 +338,7 @@ func dischargeAll(units []*Unit, cfg *SolverCfg, filter func(o *Oblig) bool) {
 	var wg sync.WaitGroup
 	for _, u := range units {
 		for _, o := range u.Obligs {
-			if o.Trivial || (filter != nil && !filter(o)) {
+			if o.Trivial || o.Result == "violated" || (filter != nil && !filter(o)) {
 				continue
 			}
 			// scripts are generated here, one at a time (term construction is not
